@@ -74,6 +74,71 @@ func orphanedByLockedLeaves(r *simRing) bool {
 	return found
 }
 
+// maintenanceContinuesAfterFailedLeave: node L tries to leave while its
+// successor is membership-locked for longer than L's whole retry budget; the
+// leave is abandoned and L stays a member. Later a node that is NOT a
+// neighbour of L leaves gracefully (nobody sends L an advisory). From then on
+// only the nodes' own periodic maintenance runs - the harness does not drive a
+// single round - and after the quiet period L's pointers, like everybody's,
+// must be the true ring (all 48 fingers included).
+func maintenanceContinuesAfterFailedLeave() (problem string) {
+	const (
+		P = uint64(1) << 44
+		L = uint64(2) << 44
+		J = uint64(5) << 43
+		S = uint64(3) << 44
+	)
+	r := newSimRing(ringsim.Config{Seed: 59})
+	defer r.net.Close()
+	if err := r.buildRing([]uint64{P, L, S}, func(i int) int { return 0 }); err != nil {
+		return "precondition: " + err.Error()
+	}
+	if _, c := r.settle(60, true, nil); c.Problem != "" {
+		return "precondition: " + c.Problem
+	}
+	r.fillLists(20)
+	gate := r.net.AddGate(&ringsim.Gate{Method: "FinishJoin", Arg: "stabilize", Caller: J, Callee: L, Nth: 1})
+	joined := make(chan error, 1)
+	go func() { _, err := r.join(J, S); joined <- err }()
+	select {
+	case <-gate.Reached():
+	case err := <-joined:
+		return fmt.Sprintf("precondition: join returned before the gate: %v", err)
+	case <-time.After(10 * time.Second):
+		return "precondition: gate not reached"
+	}
+	left := make(chan struct{})
+	go func() { r.members[L].Node.Leave(); close(left) }()
+	select {
+	case <-left:
+	case <-time.After(8 * time.Second):
+	}
+	gate.Release()
+	if err := <-joined; err != nil {
+		return "precondition: join failed: " + err.Error()
+	}
+	select {
+	case <-left:
+	case <-time.After(60 * time.Second):
+		return "precondition: leave did not return"
+	}
+	if st := r.members[L].Node.VerifState(); st != chord.Active {
+		return "precondition: the leave was not abandoned (node is " + st.String() + ")"
+	}
+	r.members[S].Node.Leave()
+	if r.members[S].Node.VerifState() != chord.Left {
+		return "precondition: second leave did not complete"
+	}
+	// quiet period in real time: 2500 stabilization intervals, nobody drives maintenance
+	var c convergence
+	for deadline := time.Now().Add(5 * time.Second); time.Now().Before(deadline); time.Sleep(5 * time.Millisecond) {
+		if c = checkConverged(r.live(), true, true); c.Problem == "" {
+			return ""
+		}
+	}
+	return fmt.Sprintf("node %d abandoned a leave and stayed a member; %d left later; after 5 s of the nodes' own periodic maintenance (2 ms stabilize, 3 ms finger repair, 5 ms predecessor check): %s (ring %v)", L, S, c.Problem, liveIDs(r.live()))
+}
+
 // soleMemberLeavesDuringFirstJoin: the only member A of a ring has granted the
 // first join request (its predecessor already is the joiner J, it still is its
 // own successor, its membership lock is held by the join) when it is asked to
@@ -122,6 +187,15 @@ func soleMemberLeavesDuringFirstJoin() (problem string) {
 	case <-leaveDone:
 	case <-time.After(30 * time.Second):
 		return "Leave() of the member that had granted the join did not return"
+	}
+	// a node holds its membership lock for the join it granted: it cannot also have processed
+	// its own leave in that state (C06)
+	if h := a.VerifStateHistory(); len(h) >= 2 {
+		for i := 1; i < len(h); i++ {
+			if h[i-1] == chord.Transferring && h[i] != chord.Active {
+				return fmt.Sprintf("member %d went from Transferring (it had granted the join of %d and held its membership lock for it) straight to %s: state history %v", A, J, h[i], h)
+			}
+		}
 	}
 	rounds, c := r.settle(60, true, nil, false)
 	if c.Problem != "" {
